@@ -108,6 +108,7 @@ func LoadModel(repo string, buildFlags []string, env []string, config string) (*
 	for _, n := range m.CG.Nodes {
 		m.nEdges += len(n.Out)
 	}
+	m.resolveNames()
 	m.fnDecl = map[*ssa.Function]*ast.FuncDecl{}
 	m.declFn = map[*ast.FuncDecl]*ssa.Function{}
 	for _, fn := range m.ModFns {
@@ -216,7 +217,10 @@ func (m *Model) PkgFunc(pkg, name string) *ssa.Function {
 	if sp == nil {
 		return nil
 	}
-	return sp.Func(name)
+	if fn := sp.Func(name); fn != nil {
+		return fn
+	}
+	return curAliases.fnByRefKey[pkg+"||"+name] // renamed since the reference tree
 }
 
 func fullPkg(short string) string {
@@ -246,7 +250,7 @@ func (m *Model) Method(pkg, typ, name string) *ssa.Function {
 			}
 		}
 	}
-	return nil
+	return curAliases.fnByRefKey[pkg+"|"+typ+"|"+name] // renamed since the reference tree
 }
 
 // Pos renders a position relative to the repo root.
@@ -463,7 +467,7 @@ func (m *Model) printfStringers(com *ssa.CallCommon) []*ssa.Function {
 	// locate format string (constant) if any
 	nfix := sig.Params().Len() - 1
 	var format *string
-	if nfix >= 1 && strings.HasSuffix(sc.Name(), "f") {
+	if nfix >= 1 && strings.HasSuffix(canonFnName(sc), "f") {
 		if c, ok := com.Args[nfix-1].(*ssa.Const); ok && c.Value != nil {
 			s := constString(c)
 			format = &s
